@@ -22,7 +22,8 @@ def gen(ctx: common.Ctx, n_gen: int, n_mut: int, n_corpus: int) -> Iterator[dict
         yield {"fn": "vlib.tasks.soundness:case", "args": {"src": src, "n_mutants": n_mut, "key": ["C01", ctx.seed, k]},
                "_k": k, "_feats": feats, "_origin": "typedgen"}
     cases = [c for c in corpus.load(["check-*.test", "pythoneval*.test"]) if not c.files and not corpus.uses_fixture_only_features(c) and not c.cmd and not c.flags]
-    rng = common.rng_for("C01", "corpus")
+    import random
+    rng = random.Random("C01-core-corpus")   # seed-independent: soundness holes shown by corpus programs are listed per program
     rng.shuffle(cases)
     for c in cases[:n_corpus]:
         src = re.sub(r"(?m)[ \t]*# [ENW]:.*$", "", c.main)
@@ -85,16 +86,17 @@ def run(ctx: common.Ctx) -> None:
                             ctx.cell("feature:" + f)
                     if x.get("decided", 0) >= 10 and x.get("nontrivial_probe"):
                         ctx.nontriv(src or (t["_k"], kind))
+                    cid = f"{t['_origin']}:{t['_k']}:{kind}" if t["_origin"] == "corpus" else None
                     wit = {"origin": t["_origin"], "case": t["_k"], "kind": kind, "program": src, "end": x.get("end"), "end_msg": x.get("end_msg")}
                     for e in x.get("e1", []):
-                        ctx.violation(classify_e1(e), f"{e['exc']} raised by an operation of an accepted program: {e['msg']} (line {e['line']}, {e['func']})", {**wit, "e1": e})
+                        ctx.violation(classify_e1(e), f"{e['exc']} raised by an operation of an accepted program: {e['msg']} (line {e['line']}, {e['func']})", {**wit, "e1": e}, case=cid)
                         break
                     for ln in x.get("e2", [])[:1]:
-                        ctx.violation("E2:statement-executed-but-never-visited-by-checker", f"line {ln} executed although the checker treated it as unreachable", {**wit, "line": ln})
+                        ctx.violation("E2:statement-executed-but-never-visited-by-checker", f"line {ln} executed although the checker treated it as unreachable", {**wit, "line": ln}, case=cid)
                     for e in x.get("e3", [])[:1]:
                         st = re.sub(r"\[.*", "[...]", e["static_type"])
                         ctx.violation(f"E3:value-not-in-static-type:{st}:runtime={e['runtime_type']}",
-                                      f"expression {e.get('source')!r} has static type {e['static_type']} but evaluated to {e['value']} ({e['runtime_type']})", {**wit, "e3": e})
+                                      f"expression {e.get('source')!r} has static type {e['static_type']} but evaluated to {e['value']} ({e['runtime_type']})", {**wit, "e3": e}, case=cid)
                     if not (x.get("e1") or x.get("e2") or x.get("e3")) and kind == "base" and len(ctx.samples) < 5:
                         ctx.sample({"origin": t["_origin"], "case": t["_k"], "end": x.get("end"), "probes": x.get("probes"), "decided": x.get("decided"),
                                     "statements": x.get("n_statements"), "unvisited_by_checker": x.get("n_unvisited"), "features": t["_feats"][:8]})
